@@ -177,13 +177,14 @@ for _P in self.all_parameters_dict.values():
             ok = False
     ctx.add('C14.R4', 'Parameters.generate_document', ok, gd, f"booleans are written as '{m.group(1)}'/'{m.group(2)}', members of TRUE_STR/FALSE_STR; other values unchanged" if ok else 'coding of booleans in the parameter file changed', 'gen')
     pb = prog.func('parameters', 'parse_boolean')
-    ok = has(pb.node, '''
+    ok = body_is(pb.body, '''
 if value in TRUE_STR:
     return True
-''') and has(pb.node, '''
 if value in FALSE_STR:
     return False
-''')
+___
+raise BiogemeError(__MSG)
+''') is not None
     ctx.add('C14.R4', 'parse_boolean', ok, pb, 'TRUE_STR -> True, FALSE_STR -> False' if ok else 'parse_boolean changed', 'parse')
     im = P.methods['import_document']
     b = find(im.node, """
